@@ -282,9 +282,11 @@ Section Flat.
     | _, _ => g
     end.
 
-  (* append  index.py:1429-1457.  Outcome: Ok tt, or the error class raised.  The statements are
-     modelled in the order the code executes them: the value is appended to _labels_mutable BEFORE
-     AutoMap(self._labels_mutable) is built on the promotion path (initialize_map). *)
+  (* append  index.py:1436-1469.  Outcome: Ok tt, or the error class raised.  On the promotion path
+     (initialize_map) the map is built from the labels plus the new value; whether that happens before
+     or after the value is pushed onto _labels_mutable, and the class a duplicate surfaces as, are
+     re-read from the source (gen_go_push_before_map = false, gen_go_promote_error = "KeyError" since
+     fix feb832d: a rejected append leaves the state unchanged). *)
   Definition M_go_append (g : go) (k : key) : go * res unit :=
     let g1 := M_go_touch_contains g k in
     if M_go_contains g k then (g1, Err gen_append_dup_error)
@@ -301,9 +303,9 @@ Section Flat.
           if keep_auto then (mk_go (g_labels g1) mut' None (g_count g1 + 1) true (g_npos g1), Ok tt)
           else match am_build mut' with
                | Ok m => (mk_go (g_labels g1) mut' (Some m) (g_count g1 + 1) true (g_npos g1), Ok tt)
-               | Err e => (mk_go (g_labels g1) (if gen_go_push_before_map then mut' else g_mut g1) None
+               | Err _ => (mk_go (g_labels g1) (if gen_go_push_before_map then mut' else g_mut g1) None
                                  (g_count g1) (g_recache g1) (g_npos g1),
-                           Err (if gen_go_push_before_map then e else gen_append_dup_error))
+                           Err gen_go_promote_error)
                end
       end.
 
@@ -381,38 +383,6 @@ Section Flat.
 
   Definition is_ok {A} (r : res A) : bool := match r with Ok _ => true | Err _ => false end.
 
-  (* the guard under which the grow-only model meets the specification: while the index has no map,
-     a key that EQUALS a held position but is not integer-typed (1.0 on [0,1]) takes the promotion
-     path and corrupts the state (finding C02-autogo-float-append) *)
-  Definition go_key_ok (g : go) (k : key) : bool :=
-    match g_map g with
-    | Some _ => true
-    | None => int_typed k || negb (memb (fst k) (g_mut g))
-    end.
-
-  Fixpoint go_extend_dom (g : go) (ks : list key) : bool :=
-    match ks with
-    | [] => true
-    | k :: ks' => go_key_ok g k &&
-                  match M_go_append g k with
-                  | (g', Ok _) => go_extend_dom g' ks'
-                  | (_, Err _) => true
-                  end
-    end.
-
-  Definition go_step_dom (g : go) (o : op) : bool :=
-    match o with
-    | OpAppend k => go_key_ok g k
-    | OpExtend ks => go_extend_dom g ks
-    | OpTouch => true
-    end.
-
-  Fixpoint go_dom (g : go) (ops : list op) : bool :=
-    match ops with
-    | [] => true
-    | o :: ops' => go_step_dom g o && go_dom (fst (M_go_step g o)) ops'
-    end.
-
 End Flat.
 
 Arguments mk_obs {C}. Arguments o_values {C}. Arguments o_iter {C}. Arguments o_rev {C}.
@@ -435,5 +405,4 @@ Arguments M_go_init {C}. Arguments M_go_auto {C}. Arguments M_go_recache {C}. Ar
 Arguments M_go_contains {C}. Arguments M_go_touch_contains {C}. Arguments M_go_append {C}.
 Arguments M_go_extend {C}. Arguments M_go_step {C}. Arguments M_go_run {C}. Arguments M_go_lookup {C}.
 Arguments M_go_observe {C}. Arguments S_go_append {C}. Arguments S_go_extend {C}.
-Arguments S_go_step {C}. Arguments S_go_run {C}. Arguments go_key_ok {C}. Arguments go_extend_dom {C}.
-Arguments go_step_dom {C}. Arguments go_dom {C}. Arguments res_list {A}.
+Arguments S_go_step {C}. Arguments S_go_run {C}. Arguments res_list {A}.
